@@ -17,12 +17,15 @@ OPNAME = {1: 'addColumnsByConstant', 2: 'addColumns', 3: 'addSelection', 4: 'del
           14: 'setLocatorsByColIdx', 15: 'setLocators', 16: 'clearLocators', 17: 'switchLocator', 18: 'setNameByColIdx',
           19: 'setNameByUID', 20: 'setName', 21: 'addSamples', 22: 'deleteSample', 23: 'setArray', 24: 'setValue',
           25: 'duplicateColumnByUID', 26: 'deleteColumnsByColIdx', 27: 'deleteColumns', 28: 'deleteColumnsByUIDRange',
-          29: 'setName(list)', 30: 'setNameByLocator'}
+          29: 'setName(list)', 30: 'setNameByLocator', 31: 'deleteSamples', 32: 'setColumnByUID', 33: 'setColumnByColIdx',
+          34: 'setColumn', 35: 'setValueByColIdx', 36: 'setFromLocator', 37: 'addColumnsByVVD', 38: 'addSelection(combine)',
+          39: 'addSelectionByRanks', 40: 'addSelectionByLimit', 50: 'Db::createFromSamples', 51: 'Db::createFromBox',
+          52: 'Db::createFillRandom', 53: 'DbGrid::create', 54: 'DbGrid::createSubGrid'}
 BITS = {1: 'names-unique', 2: 'sizes', 4: 'uid-table', 8: 'name-designator', 16: 'roles', 32: 'role-counts',
-        64: 'active-count', 128: 'column-designators', 256: 'role-postcondition', 512: 'frame'}
+        64: 'active-count', 128: 'column-designators', 256: 'role-postcondition', 512: 'frame', 1024: 'selected-cells-count'}
 # reason codes of Spec.why_not -> canonical key of the call site + circumstance, and the bits that circumstance explains
 REASON = {1: ('setLocatorByUID:index-beyond-count', 16 | 32 | 64 | 128 | 256)}
-INIT_OBS = [0, 0, 0, [], [], [], [], [], [], [[] for _ in range(NLOC)], [], [], [], [], [], []]
+INIT_OBS = [0, 0, 0, [], [], [], [], [], [], [[] for _ in range(NLOC)], [], [], [], [], [], [], [], []]
 
 def S(s): return [ord(c) for c in s]
 def unS(l): return ''.join(chr(c) for c in l)
@@ -34,6 +37,7 @@ class Shadow:
     """bookkeeping-only mirror of the model, used ONLY to bias the generator (never for a verdict)"""
     def __init__(self):
         self.ncol = 0; self.nech = 0; self.uidcol = []; self.names = []; self.loc = {t: [] for t in range(NLOC)}
+        self.grid = None          # (nx, dx, x0) when the current Db is a DbGrid
     def live(self): return [u for u, c in enumerate(self.uidcol) if c >= 0]
     def dead(self): return [u for u, c in enumerate(self.uidcol) if c < 0]
     def uid_of_col(self, c):
@@ -113,6 +117,91 @@ class Shadow:
         r = self.set_locs(list(range(nmax, nmax + nadd)), t, k, False) if t >= 0 else 0
         self.ncol += nadd
         return r
+    def add_gen(self, size, nvar0, radix, t, k):
+        if size == 0: return 0
+        if self.nech <= 0: self.nech = size // max(nvar0, 1)
+        if self.nech == 0: return 0
+        nvar = size // self.nech
+        if nvar * self.nech != size: return 0
+        return self.add_cols(nvar, radix, t, k, 0)
+    def reset(self, nc, ne):
+        self.ncol = nc; self.nech = ne; self.uidcol = list(range(nc)); self.names = ['New-%d' % (i + 1) for i in range(nc)]
+        self.loc = {t: [] for t in range(NLOC)}; self.grid = None
+    def load(self, ntab, names, locs, shift):
+        r = 0
+        for i in range(ntab): self.set_name_at(i + shift, unS(names[i]) if names else 'New.%d' % (i + 1))
+        for i in range(ntab if locs else 0):
+            t, n = locs[i]
+            if t < 0: rr = self.set_loc1(i + shift, -1, 0)
+            elif t in (8, 9, 10) and n > 1: rr = 0
+            else: rr = self.set_loc1(i + shift, t, max(n - 1, 0))
+            r = r or rr
+        return r
+    def create(self, o):
+        k = o[0]; r = 0
+        if k == 50:
+            ne, tab, names, locs, rank = o[1], o[3], o[4], o[5], o[6]
+            ntab = len(tab) // ne if tab else 0
+            self.reset(ntab + (1 if rank else 0), ne)
+            if rank: self.set_name_at(0, 'rank')
+            if tab and len(tab) % ne == 0: r = self.load(ntab, names, locs, 1 if rank else 0)
+            return r
+        if k == 51:
+            ne, nd, rank = o[1], o[2], o[3]; sh = 1 if rank else 0
+            self.reset(nd + sh, ne)
+            if rank: self.set_name_at(0, 'rank')
+            self.load(nd, [], [], sh)
+            for i in range(nd):
+                self.set_name_at(i + sh, 'x-%d' % (i + 1)); r = r or self.set_loc1(i + sh, X, i)
+            return r
+        if k == 52:
+            nd, ndim, nvar, nfex, code, varm, sel, het, rank = o[1:10]
+            self.reset(0, 0)
+            if rank: self.add_gen(nd, 1, 'rank', -1, 0)
+            self.add_gen(nd * ndim, ndim, 'x', X, 0)
+            if varm: self.add_gen(nd * nvar, nvar, 'v', V, 0)
+            if nfex: self.add_gen(nd * nfex, nfex, 'f', F, 0)
+            if sel: self.add_gen(nd, 1, 'sel', SEL, 0)
+            self.add_gen(nd * nvar, nvar, 'z', Z, 0)
+            if code: self.add_gen(nd, 1, 'code', 9, 0)
+            return 0
+        if k == 53:
+            nx, dx, x0, tab, names, locs, rank, coords = o[1], o[2], o[3], o[5], o[6], o[7], o[8], o[9]
+            return self.make_grid(nx, dx, x0, tab, names, locs, rank, coords)
+        if k == 54:
+            nx, dx, x0, lims, coords = o[1:6]
+            kept = [n for n in self.names if not (n[:1] in ('x', 'X') or n.upper() == 'RANK')]
+            self.make_grid([b - a for a, b in lims], dx, [x0[i] + dx[i] * lims[i][0] for i in range(len(nx))], [], [], [], True, coords)
+            for n in kept: self.add_cols(1, n, -1, 0, 0)
+            return 0
+        return 0
+    def make_grid(self, nx, dx, x0, tab, names, locs, rank, coords):
+        ne = 1
+        for n in nx: ne *= n
+        ntab = len(tab) // ne if tab else 0
+        number = (1 if rank else 0) + (len(nx) if coords else 0)
+        self.reset(number + ntab, ne); r = 0
+        if tab and len(tab) % ne == 0: r = self.load(ntab, names, locs, number)
+        if rank: self.set_name_at(0, 'rank')
+        if coords:
+            i0 = 1 if rank else 0
+            for i in range(len(nx)): self.set_name_at(i0 + i, 'x%d' % (i + 1))
+            r = r or self.set_locs(list(range(i0, i0 + len(nx))), X, 0, False)
+        for i in range(ntab): self.set_name_at(i + number, unS(names[i]) if names else 'New.%d' % (i + 1))
+        if coords:
+            r = r or self.set_locs(list(range(i0, i0 + len(nx))), X, 0, False)
+            if locs: r = r or self.load_locs_only(ntab, locs, number)
+        self.grid = (list(nx), list(dx), list(x0))
+        return r
+    def load_locs_only(self, ntab, locs, shift):
+        r = 0
+        for i in range(ntab):
+            t, n = locs[i]
+            if t < 0: rr = self.set_loc1(i + shift, -1, 0)
+            elif t in (8, 9, 10) and n > 1: rr = 0
+            else: rr = self.set_loc1(i + shift, t, max(n - 1, 0))
+            r = r or rr
+        return r
     def set_name_at(self, c, n):
         self.names[c] = n
         self.names[c] = self.repair(self.names[:c] + self.names[c + 1:], n)
@@ -178,14 +267,29 @@ class Shadow:
             if e: self.set_name_at(self.rank(e[0]), unS(o[2]))
             return 0
         if k == 21:
-            if o[1] > 0: self.nech += o[1]
+            if o[1] > 0 and not self.grid: self.nech += o[1]
             return 0
         if k == 22:
-            if 0 <= o[1] < self.nech: self.nech -= 1
+            if 0 <= o[1] < self.nech and not self.grid: self.nech -= 1
             return 0
         if k == 26:
             for c in sorted(o[1], reverse=True): self.apply([5, c])
             return 0
+        if k == 31:
+            if self.grid: return 0
+            for e in sorted(o[1], reverse=True):
+                if not (0 <= e < self.nech): break
+                self.nech -= 1
+            return 0
+        if k == 34:
+            l = self.ids_name(unS(o[2]), True)
+            if l or not o[1]: return 0
+            return self.add_gen(len(o[1]), 1, unS(o[2]), o[3], o[4])
+        if k == 37: return self.add_gen(sum(len(v) for v in o[1]), len(o[1]), unS(o[2]), o[3], o[4])
+        if k in (38, 39, 40):
+            if self.nech == 0 or (k == 38 and o[1] and len(o[1]) != self.nech): return 0
+            return self.add_cols(1, unS(o[2] if k != 40 else o[5]), SEL, 0, 0)
+        if k >= 50: return self.create(o)
         if k == 27:
             for u in self.uids_basic(self.expand([unS(p) for p in o[1]])): self.del_uid(u)
             return 0
@@ -209,7 +313,7 @@ class Shadow:
         return 0
     def copy(self):
         s = Shadow(); s.ncol = self.ncol; s.nech = self.nech; s.uidcol = list(self.uidcol); s.names = list(self.names)
-        s.loc = {t: list(l) for t, l in self.loc.items()}
+        s.loc = {t: list(l) for t, l in self.loc.items()}; s.grid = self.grid
         return s
 
 class Gen:
@@ -217,6 +321,9 @@ class Gen:
         self.rng = rng; self.strict = strict
         self.use_sel = rng.random() < .5
         self.use_na = rng.random() < .6
+        # strict histories that use selections keep their cells in {0, 1, NA}: getColumn*(useSel) and the active count
+        # agree only there (finding getColumnByColIdx:useSel-selection-not-one)
+        self.binary = strict and self.use_sel
         if strict and rng.random() < .5:
             self.single = ['a', 'b', 'c']; self.multi = ['p', 'q']; self.targets = ['a', 'b', 'd', 'e']
         else:
@@ -226,6 +333,7 @@ class Gen:
     def val(self):
         r = self.rng
         if self.use_na and r.random() < .2: return []
+        if self.binary: return r.choice([0, 1, 1])
         return r.choice([0, 0, 1, 1, 2, 5, -3, 7, 100])
     def typ(self, allow_unknown=True):
         r = self.rng
@@ -265,7 +373,8 @@ class Gen:
         if sh.ncol == 0 and r.random() < .7: kind = r.choice([1, 1, 1, 2, 21])
         else:
             kind = r.choice([1, 1, 1, 2, 3, 4, 4, 5, 5, 6, 7, 8, 9, 9, 9, 9, 10, 10, 10, 11, 11, 12, 12, 13, 14, 14, 15, 16, 17,
-                             18, 18, 19, 20, 20, 21, 22, 22, 23, 23, 24, 25, 26, 27, 28, 29, 30])
+                             18, 18, 19, 20, 20, 21, 22, 22, 23, 23, 24, 25, 26, 27, 28, 29, 30,
+                             31, 32, 32, 33, 33, 34, 34, 35, 36, 37, 38, 39, 40])
         if kind == 1:
             nadd = r.choice([1, 1, 1, 2, 2, 3, 4, 0, 11 if r.random() < .1 else 1])
             radix = r.choice(self.single if nadd == 1 else self.multi)
@@ -323,14 +432,76 @@ class Gen:
         if kind == 27: return [27, [S(self.existing_name(sh)) for _ in range(r.choice([0, 1, 2]))]]
         if kind == 28: return [28, self.uid(sh), r.choice([0, 1, 2, 3])]
         if kind == 29: return [29, [S(self.existing_name(sh)) for _ in range(r.choice([0, 1, 2, 3]))], S(r.choice(self.targets))]
-        return [30, self.typ(False), S(r.choice(self.targets))]
+        if kind == 30: return [30, self.typ(False), S(r.choice(self.targets))]
+        ne = sh.nech
+        if kind == 31: return [31, [self.sample(sh) for _ in range(r.choice([0, 1, 2, 3]))]]
+        if kind == 32: return [32, self.uid(sh), [self.val() for _ in range(max(0, ne - r.choice([0, 0, 0, 1])))], r.random() < .5]
+        if kind == 33: return [33, self.col(sh), [self.val() for _ in range(max(0, ne - r.choice([0, 0, 0, 1])))], r.random() < .5]
+        if kind == 34:
+            if sh.names and r.random() < .6:
+                return [34, [self.val() for _ in range(ne)], S(r.choice(sh.names)), -1, 0, r.random() < .5]
+            n = ne if ne else r.choice([1, 2])
+            t = self.typ() if r.random() < .5 else -1
+            return [34, [self.val() for _ in range(n * r.choice([1, 1, 2]) + r.choice([0, 0, 0, 1]))], S(r.choice(self.targets + ['n1', 'n2'])),
+                    t, self.index(sh, t), False]
+        if kind == 35: return [35, self.sample(sh), self.col(sh), self.val()]
+        if kind == 36: return [36, self.typ(False), self.sample(sh), r.choice([0, 0, 1, 2]), self.val()]
+        if kind == 37:
+            n = ne if ne else r.choice([1, 2]); m = r.choice([1, 1, 2, 3])
+            tabs = [[self.val() for _ in range(n)] for _ in range(m)]
+            if r.random() < .1: tabs[-1] = tabs[-1][:-1]
+            t = self.typ() if r.random() < .6 else -1
+            return [37, tabs, S(r.choice(self.multi)), t, self.index(sh, t) if r.random() < .6 else 0, (not sh.loc[SEL]) and r.random() < .3]
+        if kind in (38, 39, 40) and not self.use_sel: return [35, self.sample(sh), self.col(sh), self.val()]
+        cmb = r.choice([0, 0, 1, 2, 3, 4, 7])
+        if kind == 38:
+            tab = [] if r.random() < .3 else [self.val() for _ in range(ne + r.choice([0, 0, 0, 0, 1]))]
+            return [38, tab, S(r.choice(['s', 'sel', 'a'])), cmb]
+        if kind == 39: return [39, [r.randrange(ne) for _ in range(r.choice([0, 1, 2]))] if ne else [], S(r.choice(['s', 'r'])), cmb]
+        lo, hi = r.choice([[], 0, 1, 2]), r.choice([[], 2, 5, 8])
+        return [40, S(self.existing_name(sh)), r.random() < .8, lo, hi, S(r.choice(['s', 'lim'])), cmb]
+    def locstrs(self, n):
+        r = self.rng
+        return [[r.choice([-1, X, X, Z, Z, V, F, 7, 8, 9, SEL if self.use_sel else Z]), r.choice([-1, 0, 1, 1, 2, 3])] for _ in range(n)]
+    def creator(self, sh):
+        r = self.rng
+        k = r.choice([50, 50, 51, 52, 53, 53, 53] + ([54, 54, 54] if sh.grid else []))
+        if k == 50:
+            ne = r.choice([1, 2, 3, 4]); ntab = r.choice([0, 1, 2, 3])
+            tab = [self.val() for _ in range(ne * ntab)]
+            if not tab and r.random() < .3: ne = 0
+            names = [S(r.choice(self.single + self.targets)) for _ in range(ntab)] if r.random() < .6 else []
+            locs = self.locstrs(ntab) if r.random() < .6 else []
+            return [50, ne, r.random() < .5, tab, names, locs, r.random() < .6]
+        if k == 51: return [51, r.choice([1, 2, 3]), r.choice([1, 2, 3]), r.random() < .6]
+        if k == 52:
+            nvar = r.choice([1, 2])
+            het = [] if r.random() < .5 else [r.random() < .5 for _ in range(nvar if r.random() < .8 else nvar + 1)]
+            return [52, r.choice([1, 2, 3]), r.choice([1, 2]), nvar, r.choice([0, 1, 2]), r.random() < .4, r.random() < .4,
+                    self.use_sel and r.random() < .5, het, r.random() < .6]
+        if k == 53:
+            nd = r.choice([1, 2, 2, 3]); nx = [r.choice([1, 2, 3]) for _ in range(nd)]
+            ne = 1
+            for n in nx: ne *= n
+            ntab = r.choice([0, 0, 1, 2])
+            tab = [self.val() for _ in range(ne * ntab)]
+            names = [S(r.choice(self.single + self.targets + ['x1', 'rank'])) for _ in range(ntab)] if r.random() < .6 else []
+            locs = self.locstrs(ntab) if r.random() < .5 else []
+            return [53, nx, [r.choice([1, 2]) for _ in range(nd)], [r.choice([0, 10, -5]) for _ in range(nd)], r.random() < .5,
+                    tab, names, locs, r.random() < .6, r.random() < .7]
+        nx, dx, x0 = sh.grid
+        lims = []
+        for n in nx:
+            a = r.randrange(n); lims.append([a, r.randint(a + 1, n)])
+        return [54, nx, dx, x0, lims, r.random() < .7]
     def history(self, n):
         sh = Shadow(); ops = []
         for _ in range(n):
             for attempt in range(12):
-                o = self.one(sh)
+                first = not ops
+                o = self.creator(sh) if ((first and self.rng.random() < .35) or (not first and self.rng.random() < .03)) else self.one(sh)
                 if sh.nech > 8 and o[0] == 21: continue
-                if sh.ncol > 14 and o[0] in (1, 2, 3): continue
+                if sh.ncol > 14 and o[0] in (1, 2, 3, 34, 37, 38, 39, 40): continue
                 if not self.strict: break
                 t = sh.copy()
                 if t.apply(o) == 0: break
@@ -387,6 +558,7 @@ def sel_has_na(ob):
 
 def make_key(op, reason, newbits, ob):
     if reason in REASON and (newbits & REASON[reason][1]): return REASON[reason][0]
+    if newbits == 1024: return 'getColumnByColIdx:useSel-selection-not-one'
     return '%s:%s' % (OPNAME.get(op[0], '?'), bitnames(newbits))
 
 def lowbit(b):
@@ -461,11 +633,13 @@ def ddmin(ev, hist, pred):
         cur = cands[ok.index(True)]
     return cur
 
-NAME_ARGS = {1: [3], 2: [2], 3: [2], 6: [1], 11: [1], 18: [2], 19: [2], 20: [1, 2], 24: [1], 29: [2], 30: [2]}
+NAME_ARGS = {1: [3], 2: [2], 3: [2], 6: [1], 11: [1], 18: [2], 19: [2], 20: [1, 2], 24: [1], 29: [2], 30: [2],
+             34: [2], 37: [2], 38: [2], 39: [2], 40: [1, 5]}
 def simpler_args(hist):
     """candidate histories with one argument of one operation made simpler (smaller integer, shorter list, name 'a')"""
     out = []
     for i, o in enumerate(hist):
+        if o[0] >= 31: continue        # composite arguments (tables, creators): removed as a whole or kept
         for a in range(1, len(o)):
             x = o[a]; alts = []
             if a in NAME_ARGS.get(o[0], []):
@@ -490,6 +664,44 @@ def simpler_args(hist):
                 out.append(hist[:i] + [no] + hist[i + 1:])
     return out
 
+def directed_tests(ctx, exe):
+    """post-conditions checked directly on the library (no model), one harness process per test:
+    createCoarse / createRefine must carry over, by name and role, the non-coordinate columns of the input grid;
+    a designation by a name that is not a valid regular expression, and addColumns(useSel) with every sample masked,
+    must not kill the process"""
+    found = False
+    def one(case, tag):
+        cf = write_cases(ctx, tag, [case])
+        rc, res = run_impl(ctx, exe, cf, timeout=120)
+        for f in (cf, cf + '.impl', cf + '.impl.log'):
+            try: os.remove(f)
+            except OSError: pass
+        return res[0] if res else None
+    for refine in (0, 1):
+        for deleted in (0, 1):
+            ctx.count('directed-migrate-%d-%d' % (refine, deleted)); ctx.dist('directed_migrate')
+            r = one([2, refine, deleted], 'dir')
+            fn = 'createRefine' if refine else 'createCoarse'
+            if r is None or r[0] != r[1]:
+                src = [(unS(x[0]), x[1], x[2]) for x in r[0]] if r else None
+                out = [(unS(x[0]), x[1], x[2]) for x in r[1]] if r else None
+                what = ('DbGrid::%s on a 4x4 grid holding rank, x1, x2 and the columns a(z1), b(f1), c(v1)%s: the new grid should carry the '
+                        'columns %s (name, role type, rank) and carries %s') % (fn, ' after deleteColumn("a")' if deleted else '', src, out)
+                key = 'migrateAllVariables:colidx-as-uid' if deleted else 'directed:%s' % fn
+                ctx.violation(key, what, {'how': 'harness/C07.cpp case (2 %d %d)' % (refine, deleted), 'source_columns': src, 'new_grid_columns': out})
+                found = True
+    ctx.count('directed-regex'); ctx.dist('directed_crash_probe', 2)
+    if one([3], 'dir') is None:
+        ctx.violation('name-lookup:regex-error-uncaught', 'Db::getColIdx("a[") (any designation by a name that is neither an existing column nor a valid '
+                      'regular expression) ends the process: std::regex_error is not caught', {'how': 'harness/C07.cpp case (3)'})
+        found = True
+    ctx.count('directed-usesel')
+    if one([4], 'dir') is None:
+        ctx.violation('addColumns:useSel-no-active-sample', 'Db::addColumns(tab, name, type, 0, useSel=true) on a Db whose selection masks every sample '
+                      'ends the process: integer division by getSampleNumber(true) = 0', {'how': 'harness/C07.cpp case (4)'})
+        found = True
+    return found
+
 def load_corpus(ctx):
     p = os.path.join(VERIF, 'corpus', ctx.pid + '.sx')
     if not os.path.exists(p): return []
@@ -499,7 +711,7 @@ def describe(hist): return ' ; '.join('%s%s' % (OPNAME.get(o[0], '?'), pretty_ar
 def pretty_args(o):
     def p(x):
         if isinstance(x, list):
-            if x and all(isinstance(c, int) and 32 <= c < 127 for c in x) and o[0] in (1, 2, 3, 6, 11, 15, 18, 19, 20, 24, 27, 29, 30): return '"%s"' % unS(x)
+            if x and all(isinstance(c, int) and 32 <= c < 127 for c in x) and o[0] in (1, 2, 3, 6, 11, 15, 18, 19, 20, 24, 27, 29, 30, 34, 37, 38, 39, 40): return '"%s"' % unS(x)
             return '[' + ','.join(p(y) for y in x) + ']' if x else 'NA/[]'
         return str(x)
     return '(' + ', '.join(p(a) for a in o[1:]) + ')'
@@ -623,6 +835,7 @@ def run(ctx):
                                    'reason_code': rs['flags'][-1][1], 'observation_after_last_op': sx_str(ob)[:2000],
                                    'note': 'model and implementation agree on every observation of this history; the model mirrors the defect (see the C07_*_refuted theorems)'})
                     found_input = True
+    found_input = directed_tests(ctx, exe) or found_input
     ctx.cov['steps'] = nsteps; ctx.cov['disagreements'] = ndis; ctx.cov['invariant_breaches_seen'] = nbreach
     ctx.cov['rule'] = ('case = one operation history (1..60 public Db editing calls on an initially empty Db); after EVERY call 16 getter families are '
                        'compared textually with the extracted model and the invariant/postcondition/frame checks (extracted Coq) are evaluated; '
